@@ -559,7 +559,11 @@ func runC42(c *Ctx) {
 		// oversize / zero dropped
 		okDrop := Guarded(poolPut[0], func(g Guard) bool {
 			b, ok := g.Cond.(*ssa.BinOp)
-			return ok && !g.Pol && b.Op == token.GTR && strings.Contains(D(b.X), "cap(") && strings.Contains(D(b.Y), fmt.Sprint(mustConst(w, f.pkg, f.max)))
+			if !ok || !strings.Contains(D(b.X), "cap(") || !strings.Contains(D(b.Y), fmt.Sprint(mustConst(w, f.pkg, f.max))) {
+				return false
+			}
+			// `cap > max` not taken, or its complement `cap <= max` taken
+			return (!g.Pol && b.Op == token.GTR) || (g.Pol && b.Op == token.LEQ)
 		})
 		c.Check("C42.R3", poolPut[0], f.put+" drops zero-capacity and oversized buffers before indexing", okDrop, "indexing with an out-of-range class panics or pollutes a pool")
 		okOver := Guarded(poolGet[0], func(g Guard) bool {
